@@ -12,7 +12,7 @@
 From Coq Require Import String Ascii List Bool Arith ZArith PrimFloat.
 Import ListNotations.
 Require Import Generated PyBase PyStr Lex Format Symbols Split Merge ParseEq ParseModel Solver SolverF Eval EvalFacts EvalF.
-Require Import CodeGen CodeGenF CodeGenFacts CodeGenFacts2 CodeGenFacts3 CodeGenFacts4 CodeGenFacts5 CodeGenFacts6 CodeGenFacts7 LexFacts CodeGenLexFacts CodeGenSrc CodeGenSrcFacts CodeGenSrcFacts2 CodeGenBlock CodeGenBlockFacts CodeGenExamples.
+Require Import CodeGen CodeGenF CodeGenFacts CodeGenFacts2 CodeGenFacts3 CodeGenFacts4 CodeGenFacts5 CodeGenFacts6 CodeGenFacts7 CodeGenFacts8 LexFacts CodeGenLexFacts CodeGenSrc CodeGenSrcFacts CodeGenSrcFacts2 CodeGenBlock CodeGenBlockFacts CodeGenExamples.
 Open Scope string_scope.
 
 (* ======================= Part A: the generated text ======================= *)
@@ -309,6 +309,18 @@ Theorem C01_tree_keeps_terms row fuel ts e rest :
   tok_reads row ts = (somes (expr_reads string e) ++ tok_reads row rest)%list.
 Proof. exact (tree_reads row fuel ts e rest). Qed.
 Print Assumptions C01_tree_keeps_terms.
+
+(* the fuel of the (totalised) tree parser only limits, never changes, its result … *)
+Theorem C01_tree_fuel_monotone row f f' ts r :
+  f <= f' -> p_expr row f ts = Some r -> p_expr row f' ts = Some r.
+Proof. exact (tree_fuel_monotone row f f' ts r). Qed.
+Print Assumptions C01_tree_fuel_monotone.
+(* … and the fuel the model uses is always enough: whatever ANY amount of fuel can parse, tree_fuel parses, to the same
+   tree — a statement is never declared outside the subset, and never given another meaning, for lack of fuel *)
+Theorem C01_tree_fuel_suffices row f ts e rest :
+  p_expr row f ts = Some (e, rest) -> p_expr row (tree_fuel ts) ts = Some (e, rest).
+Proof. exact (tree_fuel_suffices row f ts e rest). Qed.
+Print Assumptions C01_tree_fuel_suffices.
 
 (* every statement `NAME[k0] = rhs` of the subset: the cell assigned is (row NAME, k0) and the cells read are exactly
    the VARIABLE / {PARAMETER} / <ERROR> matches of the statement text, in textual order, each at the index written
